@@ -98,6 +98,7 @@ type Route struct {
 }
 
 type InhibitRule struct {
+	Name   string        `json:"name,omitempty"` // optional; the loader does not require names to be unique
 	Source []ref.Matcher `json:"source"`
 	Target []ref.Matcher `json:"target"`
 	Equal  []string      `json:"equal,omitempty"`
@@ -222,6 +223,9 @@ func (c *Config) YAML() string {
 		sb.WriteString("inhibit_rules:\n")
 		for _, r := range c.Inhibit {
 			sb.WriteString("- source_matchers: " + matchersYAML(r.Source) + "\n")
+			if r.Name != "" {
+				sb.WriteString("  name: " + r.Name + "\n")
+			}
 			sb.WriteString("  target_matchers: " + matchersYAML(r.Target) + "\n")
 			if len(r.Equal) > 0 {
 				sb.WriteString("  equal: [" + strings.Join(r.Equal, ", ") + "]\n")
